@@ -73,6 +73,8 @@ def corpus_keys(tier):
     for fam, (seeds, ops) in c01.FAM.items():
         for sname in seeds:
             keys.append([fam, sname, None])
+            if tier == "quick" and sname in ("sel_lits", "upd_lits", "sel_shared"):
+                continue  # content seeds: their depth-1 successors only in the thorough tier
             for op in ops:
                 keys.append([fam, sname, op])
     return keys
